@@ -487,3 +487,38 @@ def run_c09(run, scratch, seed, tier):
 
 
 PROPS["C09"] = {"props_file": "C09.v", "run": run_c09}
+
+
+# ---------------------------------------------------------------- C10
+def run_c10(run, scratch, seed, tier):
+    import shutil
+    wst = suites.wellformed_suite(run, scratch, seed, sizes(tier, 250, 4000))
+    wst["build"] = common.core_kind(scratch)
+    run.add_suite("wellformed_runs", wst)
+    run.cov["rule"] = wst["rule"]
+    ist = suites.illformed_suite(run, scratch, seed, sizes(tier, 80, 800))
+    ist["build"] = common.core_kind(scratch)
+    run.add_suite("illformed_stream", ist)
+    # the general generator too (its errors are legitimate: the model must agree on which error, where)
+    bst = backtest_suite(run, scratch, seed + 1, sizes(tier, 120, 2000))
+    run.add_suite("backtest_runs", bst)
+    if tier == "thorough":
+        cs = common.make_compiled_scratch()
+        try:
+            kind = common.core_kind(cs)
+            if kind != "compiled":
+                raise RuntimeError("the compiled scratch copy imports the interpreted core")
+            wc = suites.wellformed_suite(run, cs, seed + 2, 1500, name="wellformed_runs_compiled")
+            wc["build"] = kind
+            run.add_suite("wellformed_runs_compiled", wc)
+            icst = suites.illformed_suite(run, cs, seed + 2, 400, name="illformed_stream_compiled")
+            icst["build"] = kind
+            run.add_suite("illformed_stream_compiled", icst)
+        finally:
+            shutil.rmtree(cs, ignore_errors=True)
+    else:
+        run.notes.append("quick tier runs the interpreted build only; the thorough tier also builds the Cython extension from the "
+                         "current tree and repeats both suites on it")
+
+
+PROPS["C10"] = {"props_file": "C10.v", "run": run_c10}
